@@ -41,7 +41,7 @@ TIERS = {
 PROBES = ["pending_then_resolved", "premature_use", "other_module_used_first", "cyclic_program", "same_target_twice", "future_annotations",
           "whole_quoted", "local_class", "schema_generated", "constrained_ref", "self_spelling", "acyclic_direct_twin",
           "local_name_collides_with_module", "same_target_three_times", "function_partially_resolvable", "generator_types_by_reference",
-          "subclass_used", "property_output_by_reference", "local_sibling_reference", "class_nested_in_class_body", "first_use_is_an_assignment", "subclass_in_other_module"]
+          "subclass_used", "property_output_by_reference", "local_sibling_reference", "class_nested_in_class_body", "first_use_is_an_assignment", "subclass_in_other_module", "self_in_inherited_lazy_annotation"]
 
 CONTAINERS = ["opt", "list", "dict", "union", "req"]
 
@@ -499,7 +499,14 @@ def topo(prog):
     return order
 
 
+SR_USES = [["Sub", {"link": {"extra": 5}}], ["Sub", {"link": {"w": 3}}], ["Sub", {"link": {"v": "1", "link": {"extra": "2"}}}], ["Base", {"link": {"v": 2}}],
+           ["Sub", {"many": [{"extra": 1}, {"v": 2}]}], ["Base", {"link": {"w": "zz"}}], ["Sub", {"extra": "7", "link": None}], ["Base", {"many": [{"link": {"w": 1}}]}]]
+
+
 def generate(rng, tier):
+    if rng.random() < 0.03:
+        return {"prop": ID, "kind": "self_redefault", "future": rng.random() < 0.5, "order": rng.choice(["bsl", "bls"]),
+                "uses": [copy.deepcopy(rng.choice(SR_USES)) for _ in range(rng.choice([1, 2, 3]))], "events": []}
     if rng.random() < 0.04:
         # the first use of a declaration is an attribute assignment (an instance made without parsing)
         return {"prop": ID, "kind": "assign_first", "values": [rng.choice([[{"v": "3"}], [], [{"v": "zz"}], [{"v": 1}, {"v": "2"}]]) for _ in range(rng.choice([1, 2]))],
@@ -816,9 +823,52 @@ def execute_assign_first(plan):
     return res
 
 
+def self_redefault_source(S, direct, future, order):
+    """Self inside an annotation that can only be evaluated at the first parse (it also names a class defined later),
+    inherited by a subclass that gives the field its default again: Self means the subclass there."""
+    later = f"class Later{S}(Schema):\n    w: int = 0\n"
+    a = f"Union[Self, Later{S}, None]"
+    if not direct and not future:
+        a = repr(a)
+    base = f"class Base{S}(Schema):\n    v: int = 0\n    link: {a} = None\n    many: {('List[Self]' if direct or future else repr('List[Self]'))} = Field(default_factory=list)\n"
+    sub = f"class Sub{S}(Base{S}):\n    link = None\n    extra: int = 0\n"
+    hdr = ("from __future__ import annotations\n" if future and not direct else "") + HEADER
+    if direct:
+        return hdr + later + base + sub
+    return hdr + {"bsl": base + sub + later, "bls": base + later + sub}[order]
+
+
+def execute_self_redefault(plan):
+    res = RunResult()
+    kernel.reset_world()
+    faults.register_leaves()
+    outs = []
+    for direct in (True, False):
+        S = "__" + kernel.new_suffix()
+        mod = kernel.make_module("verif_c17_sr_" + S.strip("_"), self_redefault_source(S, direct, plan["future"], plan["order"]))
+        got = []
+        for cls, data in plan["uses"]:
+            got.append(_outcome(lambda: getattr(mod, cls + S).__from__(copy.deepcopy(data))))
+        outs.append(got)
+    res.ev("direct", outs[0])
+    res.ev("by-reference", outs[1])
+    res.stats["probe:self_in_inherited_lazy_annotation"] += 1
+    if plan["future"]:
+        res.stats["probe:future_annotations"] += 1
+    for n, (d, r) in enumerate(zip(*outs)):
+        if d != r:
+            res.violate(f"C17|self_redefault|{'future' if plan['future'] else 'quoted'}|{plan['uses'][n][0]}|{_kind(r, d)}",
+                        f"use #{n} {plan['uses'][n]} gave {kernel.jdump(r)[:200]}, the declaration with direct references gives {kernel.jdump(d)[:200]}")
+            break
+    res.nontrivial = kernel.digest_of(["self_redefault", plan["future"], plan["order"], plan["uses"]])
+    return res
+
+
 def execute(plan):
     if plan.get("kind") == "assign_first":
         return execute_assign_first(plan)
+    if plan.get("kind") == "self_redefault":
+        return execute_self_redefault(plan)
     res = RunResult()
     kernel.reset_world()
     faults.register_leaves()
@@ -1078,6 +1128,13 @@ def shrink(plan):
             if len(plan["values"]) > 1:
                 p = copy.deepcopy(plan)
                 p["values"].pop(i)
+                yield p
+        return
+    if plan.get("kind") == "self_redefault":
+        for i in range(len(plan["uses"])):
+            if len(plan["uses"]) > 1:
+                p = copy.deepcopy(plan)
+                p["uses"].pop(i)
                 yield p
         return
     yield from _shrink(plan)
